@@ -36,6 +36,7 @@ FILES = {
                     "    def meth(self): return 1\n"
                     "def danger(): return 'danger'\n",
     "ljpkg/__init__.py": "",
+    "ljplain.py": "class P1:\n    pass\nclass P2:\n    pass\n",      # round-trip classes: default state handling
     "ljpkg/mod.py": "import ljforeign\n"
                     "from ljforeign import Gadget\n"
                     "from ljlog import Base\n"
@@ -185,21 +186,39 @@ def run_real(case):
     # re-resolve the allowed classes lazily by name instead of by the stale objects
     pol.allowedClasses = _LazyClasses(case["policy"]["classes"])
     del ljlog.LOG[:]
-    before = set(sys.modules)
     sexp = to_py(case["sexp"])
     out = {}
-    with warnings.catch_warnings():
-        warnings.simplefilter("ignore")
+    requested = []          # modules present after each import requested BY jelly.py / reflect.py, in order
+    import builtins
+    orig = builtins.__import__
+
+    def hook(name, globals=None, locals=None, fromlist=(), level=0):
+        caller = sys._getframe(1).f_code.co_filename
         try:
-            v = jelly.unjelly(sexp, pol)
-            out["value"] = v
-            out["result"] = "OK"
-        except jelly.InsecureJelly:
-            out["result"] = "X:insecure"
-        except Exception:
-            out["result"] = "X:error"
-    new = [m for m in sys.modules if m not in before and m != "ljlog"]
-    out["imports"] = new
+            return orig(name, globals, locals, fromlist, level)
+        finally:
+            if caller.endswith(("twisted/python/reflect.py", "twisted/spread/jelly.py")) and isinstance(name, str):
+                parts = name.split(".")
+                for i in range(1, len(parts) + 1):
+                    p = ".".join(parts[:i])
+                    if p in sys.modules and p not in requested:
+                        requested.append(p)
+
+    builtins.__import__ = hook
+    try:
+        with warnings.catch_warnings():
+            warnings.simplefilter("ignore")
+            try:
+                v = jelly.unjelly(sexp, pol)
+                out["value"] = v
+                out["result"] = "OK"
+            except jelly.InsecureJelly:
+                out["result"] = "X:insecure"
+            except Exception:
+                out["result"] = "X:error"
+    finally:
+        builtins.__import__ = orig
+    out["imports"] = requested
     out["insts"] = list(ljlog.LOG)
     return out
 
@@ -237,8 +256,13 @@ def impl(case) -> str:
 
 def oracle(case, obs):
     if case.get("kind") == "roundtrip":
-        return None if obs == "same" else Failure(case, "jelly/unjelly changed the object graph: " + obs,
-                                                  "roundtrip:" + obs.split(":")[0])
+        if obs == "same":
+            return None
+        if tuple_on_cycle(case["graph"]):
+            # known limitation class: a cycle that passes through an (immutable) tuple
+            kind = "raised" if obs.startswith("raised:") else "placeholder"
+            return Failure(case, "cyclic graph through a tuple not preserved: " + obs, "roundtrip-tuple-on-cycle:" + kind)
+        return Failure(case, "jelly/unjelly changed the object graph: " + obs, "roundtrip:" + obs.split(":")[0])
     pol = case["policy"]
     res, imps, insts = obs.split("|")
     unnum = lambda s: ".".join(SEG[int(x)] for x in s.split(".")) if s and s[0].isdigit() else s
@@ -355,18 +379,47 @@ def same_graph(a, b):
     return "same"
 
 
+def _edges(d):
+    if d[0] in ("list", "tuple"):
+        return [x for x in d[1:] if isinstance(x, int)]
+    if d[0] == "dict":
+        return [d[k + 1] for k in range(1, len(d) - 1, 2)]
+    if d[0] == "inst":
+        return [d[k + 1] for k in range(2, len(d) - 1, 2)]
+    return []
+
+
+def tuple_on_cycle(spec) -> bool:
+    adj = {i: _edges(d) for i, d in enumerate(spec)}
+    for i, d in enumerate(spec):
+        if d[0] != "tuple":
+            continue
+        seen, st = set(), list(adj[i])
+        while st:
+            x = st.pop()
+            if x not in seen:
+                seen.add(x)
+                st += adj[x]
+        if i in seen:
+            return True
+    return False
+
+
 def impl_roundtrip(case) -> str:
     _world_dir()
     from twisted.spread import jelly
     import importlib
     p = jelly.SecurityOptions()
-    p.allowInstancesOf(*[getattr(importlib.import_module(c.rpartition(".")[0]), c.rpartition(".")[2])
-                         for c in CLASSES if not c.startswith("ljforeign")])
+    ljplain = importlib.import_module("ljplain")
+    p.allowInstancesOf(ljplain.P1, ljplain.P2)
     g = build_graph(case["graph"])
     with warnings.catch_warnings():
         warnings.simplefilter("ignore")
-        sexp = jelly.jelly(g, p)
-        back = jelly.unjelly(sexp, p)
+        try:
+            sexp = jelly.jelly(g, p)
+            back = jelly.unjelly(sexp, p)
+        except Exception as e:
+            return "raised:" + type(e).__name__
     return same_graph(g, back)
 
 
@@ -384,8 +437,7 @@ def rand_graph(rng):
                 d += ["k%d" % j, rng.randrange(n)]
             spec.append(d)
         elif k < 0.7:
-            d = ["inst", rng.choice([c for c in CLASSES if c.startswith("ljpkg.mod.A") or c.startswith("ljpkg.sub")
-                                     or c.startswith("ljpkg.deep")])]
+            d = ["inst", rng.choice(["ljplain.P1", "ljplain.P2"])]
             for j in range(rng.randrange(3)):
                 d += ["a%d" % j, rng.randrange(n)]
             spec.append(d)
@@ -497,7 +549,11 @@ def corpus():
         {"policy": P(TYPES, MODULES, CLASSES), "sexp": ["function", A("os.system")]},
         {"policy": P(TYPES, MODULES, CLASSES), "sexp": ["instance", ["class", A("subprocess.Popen")], ["list"]]},
         {"kind": "roundtrip", "graph": [["list", 0, 1, 1], ["dict", "k", 0]]},
-        {"kind": "roundtrip", "graph": [["inst", "ljpkg.mod.Allowed", "me", 0, "l", 1], ["list", 0, 1]]},
+        {"kind": "roundtrip", "graph": [["list", 2, 3], ["inst", "ljplain.P1", "a0", 2], ["tuple", 0, 1], ["list"],
+                                        ["inst", "ljplain.P2"], ["dict"]]},
+        {"kind": "roundtrip", "graph": [["list", 1], ["list", 0, 2], ["dict", "k0", 4, "k1", 5], ["dict"],
+                                        ["dict", "k0", 1, "k1", 5], ["tuple", 4]]},
+        {"kind": "roundtrip", "graph": [["inst", "ljplain.P1", "me", 0, "l", 1], ["list", 0, 1]]},
     ]
 
 
@@ -556,12 +612,8 @@ def to_coq(case):
     if s is None:
         return None
     pol = case["policy"]
-    tys = coq_list([TAGC[t] if t in TAGC else f"(TName {cn(t)})" for t in pol["types"]], "tag")
-    # names allowed by default in SecurityOptions().allowedTypes that the generator can produce
-    if "None" not in pol["types"]:
-        tys = coq_list([TAGC[t] if t in TAGC else f"(TName {cn(t)})" for t in pol["types"]] + ["TNone"], "tag")
-    if "bool" not in pol["types"]:
-        tys = tys[:-1] + "; (TName " + cn("bool") + ")]" if tys.startswith("[") else f"[(TName {cn('bool')})]"
+    names = list(pol["types"]) + [t for t in ("None", "set", "bool") if t not in pol["types"]]   # allowed by default
+    tys = coq_list([TAGC[t] if t in TAGC else f"(TName {cn(t)})" for t in names], "tag")
     pm = coq_list([cn(m) for m in pol["modules"]], "name")
     pc = coq_list([cn(c) for c in pol["classes"]], "name")
     return f"(world_mods, world_attrs, ({tys}, {pm}, {pc}, (@nil name)), {s})"
@@ -630,7 +682,8 @@ SPEC = Spec(
          "references for the jelly->unjelly round trip.  non-trivial = not refused outright before any effect",
     trusted=[
         "hand-written model coq/C45/Model.v (tied only as far as the generated cases reach); harness instrumentation "
-        "(sys.modules delta as ground truth for imports, __new__ of the synthetic classes for instantiation)",
+        "(builtins.__import__ wrapped: for every import requested from jelly.py / reflect.py, the prefixes of the "
+        "requested name present in sys.modules afterwards; __new__ of the synthetic classes for instantiation)",
         "class identity is compared by qualified name in the harness (synthetic modules are purged and re-imported "
         "for every case)",
     ],
